@@ -503,4 +503,20 @@ pub mod verif {
     pub fn top_version() -> Option<String> {
         current_version().map(|x| format!("{:?}", x))
     }
+
+    /// Look up the packrat storage of this thread: `None` = no entry,
+    /// `Some(None)` = stored failure, `Some(Some(len))` = stored success
+    /// that consumed `len` bytes.
+    pub fn memo_probe(
+        name: &'static str,
+        ptr: *const u8,
+        in_directive: bool,
+    ) -> Option<Option<usize>> {
+        crate::PACKRAT_STORAGE.with(|storage| {
+            storage
+                .borrow()
+                .get(&(name, ptr, in_directive))
+                .map(|x| x.as_ref().map(|y| y.1))
+        })
+    }
 }
